@@ -77,11 +77,11 @@ var routines = []*routine{
 	{name: "newton.root", families: []string{"polyroot"}, variants: []string{"None"}, hookKind: "gy", iterBy: "eval", consOpt: true, hookOpt: true, smallCap: 3, bigCap: 25, epsDiv: 1, run: runNewtonRoot},
 	{name: "newton.crit", families: hardFamilies, variants: []string{"None", "LDL", "Eigenvalue"}, hookKind: "g", iterBy: "eval", consOpt: true, hookOpt: true, smallCap: 3, bigCap: 25, epsDiv: 1, run: runNewtonCrit},
 	{name: "newton.min", families: hardFamilies, variants: []string{"None", "LDL", "Eigenvalue"}, hookKind: "gy", iterBy: "eval", consOpt: true, hookOpt: true, smallCap: 3, bigCap: 25, epsDiv: 1, run: runNewtonMin},
-	{name: "rprop", families: hardFamilies, variants: []string{"1.2/0.5", "2/0.1", "1.5/0.8"}, hookKind: "gy", iterBy: "eval", consOpt: true, hookOpt: true, smallCap: 3, bigCap: 300, epsDiv: 1, run: runRprop},
-	{name: "rprop.gradient", families: hardFamilies, variants: []string{"1.2/0.5", "2/0.1", "1.5/0.8"}, hookKind: "g", iterBy: "eval", consOpt: true, hookOpt: true, smallCap: 3, bigCap: 300, epsDiv: 1, run: runRpropGradient},
+	{name: "rprop", families: append(append([]string{}, hardFamilies...), "lattice"), variants: []string{"1.2/0.5", "2/0.1", "1.5/0.8"}, hookKind: "gy", iterBy: "eval", consOpt: true, hookOpt: true, smallCap: 3, bigCap: 300, epsDiv: 1, run: runRprop},
+	{name: "rprop.gradient", families: append(append([]string{}, hardFamilies...), "lattice"), variants: []string{"1.2/0.5", "2/0.1", "1.5/0.8"}, hookKind: "g", iterBy: "eval", consOpt: true, hookOpt: true, smallCap: 3, bigCap: 300, epsDiv: 1, run: runRpropGradient},
 	{name: "gradientDescent", families: []string{"quad", "sepconv", "logistic", "bowl", "xlogx"}, variants: []string{"0.5", "1", "1.5"}, hookKind: "gy", iterBy: "eval", hookOpt: true, epsDiv: 1, run: runGradientDescent},
-	{name: "adam", families: scalarFamilies, variants: []string{"0.05", "0.3"}, hookKind: "gy", iterBy: "eval", consOpt: true, hookOpt: true, smallCap: 3, bigCap: 300, epsDiv: 3, run: runAdam},
-	{name: "adam.gradient", families: scalarFamilies, variants: []string{""}, hookKind: "g", iterBy: "eval", consOpt: true, hookOpt: true, smallCap: 3, bigCap: 200, epsDiv: 3, run: runAdamGradient},
+	{name: "adam", families: append(append([]string{}, scalarFamilies...), "lattice"), variants: []string{"0.05", "0.3"}, hookKind: "gy", iterBy: "eval", consOpt: true, hookOpt: true, smallCap: 3, bigCap: 300, epsDiv: 3, run: runAdam},
+	{name: "adam.gradient", families: append(append([]string{}, scalarFamilies...), "lattice"), variants: []string{""}, hookKind: "g", iterBy: "eval", consOpt: true, hookOpt: true, smallCap: 3, bigCap: 200, epsDiv: 3, run: runAdamGradient},
 	{name: "saga", families: []string{"quad"}, variants: []string{"dense1", "dense2", "sparse1", "sparse2"}, hookKind: "args", iterBy: "eval", hookOpt: true, smallCap: 3, bigCap: 300, epsDiv: 1, run: runSaga},
 	{name: "lineSearch", families: append(append([]string{}, scalarFamilies...), "line1d"), variants: []string{"1", "0.1", "10", "1/short", "0.1/short", "poly"}, hookKind: "gy", iterBy: "eval", consOpt: true, hookOpt: true, smallCap: 3, bigCap: 20, epsDiv: 1, run: runLineSearch},
 }
@@ -259,6 +259,9 @@ func etaOf(variant string) []float64 {
 func runRprop(pr *problem, variant string, o combo, maxit int, rng *rand.Rand, r *rec) result {
 	x0 := mkVec(pr.x0, rng, r)
 	step := []float64{0.01, 0.1, 1}[rng.Intn(3)]
+	if pr.c.Kind == "lattice" {
+		step = pr.c.Step.f() // the step lattice the case is constructed for
+	}
 	args := []interface{}{rprop.Epsilon{Value: pr.eps}}
 	if maxit >= 0 {
 		args = append(args, rprop.MaxIterations{Value: maxit})
@@ -296,6 +299,9 @@ func (pr *problem) gradFn(r *rec) func(x, g DenseFloat64Vector) error {
 func runRpropGradient(pr *problem, variant string, o combo, maxit int, rng *rand.Rand, r *rec) result {
 	x0 := NewDenseFloat64Vector(append([]float64{}, pr.x0...))
 	step := []float64{0.01, 0.1, 1}[rng.Intn(3)]
+	if pr.c.Kind == "lattice" {
+		step = pr.c.Step.f() // the step lattice the case is constructed for
+	}
 	args := []interface{}{rprop.Epsilon{Value: pr.eps}}
 	if maxit >= 0 {
 		args = append(args, rprop.MaxIterations{Value: maxit})
@@ -352,6 +358,9 @@ func runGradientDescent(pr *problem, variant string, o combo, maxit int, rng *ra
 func runAdam(pr *problem, variant string, o combo, maxit int, rng *rand.Rand, r *rec) result {
 	x0 := mkVec(pr.x0, rng, r)
 	step := map[string]float64{"0.05": 0.05, "0.3": 0.3}[variant]
+	if pr.c.Kind == "lattice" {
+		step = pr.c.Step.f()
+	}
 	args := []interface{}{adam.Epsilon{Value: pr.eps}, adam.StepSize{Value: step}}
 	if maxit >= 0 {
 		args = append(args, adam.MaxIterations{Value: maxit})
